@@ -164,6 +164,7 @@ class Sched:
         self.record = record
         self.timers_adversarial = timers_adversarial
         self.observers = []           # callables run at every yield point (oracle sampling)
+        self.quiescent_observers = []  # callables run when only timers can make progress
         self.atomic = 0               # >0: inside an atomic section of a virtual primitive (no switching)
         self.keep_log = True          # False: do not retain events (the log keeps every logged object alive)
         self.error = None
@@ -222,6 +223,10 @@ class Sched:
         if not cands:
             self._begin_abort('deadlock')
             return self._abort_handover(me)
+        if self.quiescent_observers and all(c[1] for c in cands):
+            # nothing can run any more until a timer fires: every pending notification has been delivered
+            for ob in self.quiescent_observers:
+                ob(self)
         for ob in self.observers:
             ob(self)
         try:
